@@ -3,4 +3,803 @@
 From PV Require Import Base.DecimalFacts Hostlist.HLDefs Hostlist.HLSpec Hostlist.HLFacts.
 Local Open Scope N_scope.
 
-(* to be proved: see Props/Properties_C01.v *)
+(* ====================================================================== *)
+(* 0. Small generic facts                                                  *)
+(* ====================================================================== *)
+
+Lemma is_sep_sepc c : is_sep c = is_sepc c.
+Proof. reflexivity. Qed.
+
+Lemma count_up'_eq k from : count_up' k from = count_up k from.
+Proof. revert from; induction k as [|k IH]; intros from; cbn [count_up' count_up]; auto.
+  Qed.
+
+Lemma forallb_In {A} (p : A -> bool) l x : forallb p l = true -> In x l -> p x = true.
+Proof. intros H Hx. rewrite forallb_forall in H. auto. Qed.
+
+Lemma forallb_rev {A} (p : A -> bool) l : forallb p l = true -> forallb p (rev l) = true.
+Proof. intros H. apply forallb_forall. intros x Hx. apply in_rev in Hx.
+  eapply forallb_In; eauto. Qed.
+
+Lemma forallb_impl {A} (p q : A -> bool) l :
+  (forall x, p x = true -> q x = true) -> forallb p l = true -> forallb q l = true.
+Proof. intros Hpq H. apply forallb_forall. intros x Hx. apply Hpq. eapply forallb_In; eauto. Qed.
+
+Lemma forallb_not_In (p : N -> bool) l c : forallb p l = true -> p c = false -> ~ In c l.
+Proof. intros H Hc Hin. rewrite (forallb_In p l c H Hin) in Hc. discriminate. Qed.
+
+Lemma take_while_forallb p s : forallb p (take_while p s) = true.
+Proof. induction s as [|x r IH]; cbn [take_while forallb]; auto.
+  destruct (p x) eqn:E; cbn [forallb]; auto. rewrite E; auto. Qed.
+
+Lemma skipn_app_length {A} (a b : list A) : skipn (length a) (a ++ b) = b.
+Proof. induction a; cbn [length skipn app]; auto. Qed.
+Lemma firstn_app_length {A} (a b : list A) : firstn (length a) (a ++ b) = a.
+Proof. induction a; cbn [length firstn app]; auto. f_equal; auto. Qed.
+
+Lemma map_flat_map {A B C} (f : B -> C) (g : A -> list B) l :
+  map f (flat_map g l) = flat_map (fun x => map f (g x)) l.
+Proof. induction l as [|a l IH]; cbn [flat_map map]; auto. rewrite map_app, IH. reflexivity. Qed.
+
+Lemma flat_map_map' {A B C} (f : A -> B) (g : B -> list C) l :
+  flat_map g (map f l) = flat_map (fun x => g (f x)) l.
+Proof. induction l as [|a l IH]; cbn [flat_map map]; auto. rewrite IH. reflexivity. Qed.
+
+Lemma flat_map_ext' {A B} (f g : A -> list B) l :
+  (forall x, In x l -> f x = g x) -> flat_map f l = flat_map g l.
+Proof. induction l as [|a l IH]; intros H; cbn [flat_map]; auto.
+  rewrite H by (left; auto). rewrite IH; auto. intros; apply H; right; auto. Qed.
+
+(* pattern matches on byte literals, once and for all *)
+Lemma match_N_43_45 {A} (c : N) (x y z : A) :
+  match c with 43 => x | 45 => y | _ => z end = if c =? 43 then x else if c =? 45 then y else z.
+Proof. destruct c as [|p]; [reflexivity|].
+  do 7 (try (destruct p as [p|p|]; try reflexivity)). Qed.
+Lemma match_N_45 {A} (c : N) (x y : A) :
+  match c with 45 => x | _ => y end = if c =? 45 then x else y.
+Proof. destruct c as [|p]; [reflexivity|].
+  do 7 (try (destruct p as [p|p|]; try reflexivity)). Qed.
+
+(* ====================================================================== *)
+(* 1. Character classes                                                    *)
+(* ====================================================================== *)
+
+Lemma plain_char_spec c : plain_char c = true -> is_sep c = false /\ c <> 91 /\ c <> 93.
+Proof. unfold plain_char, is_sep, is_sepc. intros H. lia. Qed.
+
+Lemma digit_plain c : is_digit c = true -> plain_char c = true.
+Proof. unfold plain_char, is_sepc, is_digit. lia. Qed.
+
+Lemma digits_plain_text ds : forallb is_digit ds = true -> plain_text ds = true.
+Proof. apply forallb_impl. exact digit_plain. Qed.
+
+Lemma plain_text_app a b : plain_text (a ++ b) = plain_text a && plain_text b.
+Proof. apply forallb_app. Qed.
+
+(* characters that occur between brackets *)
+Definition rchar (c : N) : bool := is_digit c || (c =? 45) || (c =? 44).
+Definition nobr (c : N) : bool := negb (c =? 91) && negb (c =? 93).
+
+Lemma rchar_nobr c : rchar c = true -> nobr c = true.
+Proof. unfold rchar, nobr, is_digit. lia. Qed.
+Lemma digit_rchar c : is_digit c = true -> rchar c = true.
+Proof. unfold rchar. intros ->. reflexivity. Qed.
+
+Lemma fmt_rchar w n : forallb rchar (fmt w n) = true.
+Proof. eapply forallb_impl; [exact digit_rchar|apply fmt_all_digit]. Qed.
+
+Lemma rt_text_rchar r : forallb rchar (rt_text r) = true.
+Proof. unfold rt_text. rewrite forallb_app, fmt_rchar. destruct (t_hi r) as [[h wh]|]; auto.
+  cbn [forallb andb]. rewrite fmt_rchar. reflexivity. Qed.
+
+Lemma forallb_join p c l : p c = true -> Forall (fun a => forallb p a = true) l -> forallb p (join c l) = true.
+Proof. intros Hc H. induction H as [|a l Ha Hl IH]; auto.
+  destruct l as [|b l'].
+  - cbn [join]. auto.
+  - change (join c (a :: b :: l')) with (a ++ c :: join c (b :: l')).
+    rewrite forallb_app, Ha. cbn [forallb andb]. rewrite Hc, IH. reflexivity. Qed.
+
+Lemma rs_text_rchar rs : forallb rchar (rs_text rs) = true.
+Proof. unfold rs_text. apply forallb_join; [reflexivity|].
+  apply Forall_forall. intros a Ha. apply in_map_iff in Ha as (r & <- & _). apply rt_text_rchar. Qed.
+
+Lemma rs_text_nobr rs : forallb nobr (rs_text rs) = true.
+Proof. eapply forallb_impl; [exact rchar_nobr|apply rs_text_rchar]. Qed.
+
+(* ====================================================================== *)
+(* 2. Tokenizer                                                            *)
+(* ====================================================================== *)
+
+(* the rest of the input makes scan_tok stop at level 0 *)
+Definition stops (rest : bytes) : Prop :=
+  match rest with [] => True | c :: _ => is_sep c = true end.
+
+Lemma scan_tok_stop rest : stops rest -> scan_tok 0 rest = ([], rest).
+Proof. destruct rest as [|c r]; cbn [stops scan_tok]; auto. intros ->. reflexivity. Qed.
+
+Lemma scan_tok_plain t rest :
+  plain_text t = true ->
+  scan_tok 0 (t ++ rest) = (t ++ fst (scan_tok 0 rest), snd (scan_tok 0 rest)).
+Proof.
+  induction t as [|c t IH]; intros H.
+  - cbn [app]. destruct (scan_tok 0 rest); reflexivity.
+  - cbn [plain_text forallb] in H. apply andb_true_iff in H as [Hc Ht].
+    apply plain_char_spec in Hc as (Hs & H1 & H2).
+    cbn [app scan_tok]. rewrite Hs. cbn [Z.eqb andb].
+    apply N.eqb_neq in H1, H2. rewrite H1, H2. rewrite (IH Ht). reflexivity.
+Qed.
+
+Lemma scan_tok_inner body rest :
+  forallb nobr body = true ->
+  scan_tok 1 (body ++ 93 :: rest) = (body ++ 93 :: fst (scan_tok 0 rest), snd (scan_tok 0 rest)).
+Proof.
+  induction body as [|c t IH]; intros H.
+  - cbn [app scan_tok Z.eqb andb N.eqb Pos.eqb]. change (1 - 1)%Z with 0%Z.
+    destruct (scan_tok 0 rest); reflexivity.
+  - cbn [forallb] in H. apply andb_true_iff in H as [Hc Ht]. unfold nobr in Hc.
+    cbn [app scan_tok Z.eqb andb].
+    assert (H1 : (c =? 91) = false) by lia. assert (H2 : (c =? 93) = false) by lia.
+    rewrite H1, H2, (IH Ht). reflexivity.
+Qed.
+
+Lemma scan_tok_bracket body rest :
+  forallb nobr body = true ->
+  scan_tok 0 (91 :: body ++ 93 :: rest)
+  = (91 :: body ++ 93 :: fst (scan_tok 0 rest), snd (scan_tok 0 rest)).
+Proof.
+  intros H. cbn [scan_tok]. change (is_sep 91) with false. cbn [Z.eqb andb N.eqb Pos.eqb].
+  change (0 + 1)%Z with 1%Z. rewrite (scan_tok_inner _ _ H). reflexivity.
+Qed.
+
+(* a token: scanned as a whole, and not starting with a separator *)
+Definition tok_ok (t : bytes) : Prop :=
+  (forall rest, stops rest -> scan_tok 0 (t ++ rest) = (t, rest)) /\
+  match t with [] => False | c :: _ => is_sep c = false end.
+
+Lemma tok_ok_plain t : t <> [] -> plain_text t = true -> tok_ok t.
+Proof.
+  intros Hne H. split.
+  - intros rest Hr. rewrite scan_tok_plain, scan_tok_stop by auto. cbn [fst snd]. rewrite app_nil_r. reflexivity.
+  - destruct t as [|c t]; [congruence|]. cbn [plain_text forallb] in H.
+    apply andb_true_iff in H as [Hc _]. apply plain_char_spec in Hc. tauto.
+Qed.
+
+Lemma head_nosep_app p c q :
+  plain_text p = true -> is_sep c = false ->
+  match p ++ c :: q with [] => False | x :: _ => is_sep x = false end.
+Proof. destruct p as [|x p]; cbn [app]; auto. cbn [plain_text forallb]. intros H _.
+  apply andb_true_iff in H as [Hc _]. apply plain_char_spec in Hc. tauto. Qed.
+
+Lemma tok_ok_br p body q :
+  plain_text p = true -> forallb nobr body = true -> plain_text q = true ->
+  tok_ok (p ++ 91 :: body ++ 93 :: q).
+Proof.
+  intros Hp Hb Hq. split.
+  - intros rest Hr. rewrite <- app_assoc. cbn [app]. rewrite <- app_assoc. cbn [app].
+    rewrite scan_tok_plain by auto. rewrite scan_tok_bracket by auto.
+    rewrite scan_tok_plain by auto. rewrite scan_tok_stop by auto. cbn [fst snd].
+    rewrite app_nil_r. reflexivity.
+  - apply head_nosep_app; auto.
+Qed.
+
+Lemma tok_ok_br2 p body mid body2 q :
+  plain_text p = true -> forallb nobr body = true -> plain_text mid = true ->
+  forallb nobr body2 = true -> plain_text q = true ->
+  tok_ok (p ++ 91 :: body ++ 93 :: mid ++ 91 :: body2 ++ 93 :: q).
+Proof.
+  intros Hp Hb Hm Hb2 Hq. split.
+  - intros rest Hr.
+    repeat (rewrite <- app_assoc; cbn [app]).
+    rewrite scan_tok_plain by auto. rewrite scan_tok_bracket by auto.
+    rewrite scan_tok_plain by auto. rewrite scan_tok_bracket by auto.
+    rewrite scan_tok_plain by auto. rewrite scan_tok_stop by auto. cbn [fst snd].
+    rewrite app_nil_r. reflexivity.
+  - apply head_nosep_app; auto.
+Qed.
+
+(* the rest of the input after the separators: empty or starting a new token *)
+Definition clean (acc : bytes) : Prop :=
+  match acc with [] => True | c :: _ => is_sep c = false end.
+
+Lemma drop_sep_clean s acc :
+  forallb is_sep s = true -> clean acc -> drop_while is_sep (s ++ acc) = acc.
+Proof.
+  intros Hs Hc. destruct acc as [|x r].
+  - rewrite app_nil_r. apply drop_while_all; auto.
+  - apply drop_while_app_stop; auto.
+Qed.
+
+Lemma next_tok_tok t s acc :
+  tok_ok t -> forallb is_sep s = true -> (s <> [] \/ acc = []) -> clean acc ->
+  next_tok (t ++ s ++ acc) = Some (t, acc).
+Proof.
+  intros [Hscan Hhd] Hs Hsa Hc. unfold next_tok.
+  destruct t as [|c t]; [contradiction|]. cbn [app drop_while]. rewrite Hhd.
+  change (c :: t ++ s ++ acc) with ((c :: t) ++ s ++ acc).
+  rewrite Hscan.
+  - rewrite drop_sep_clean by auto. reflexivity.
+  - destruct s as [|x s'].
+    + destruct Hsa as [Hsa|Hsa]; [congruence|]. subst acc. exact I.
+    + cbn [app stops]. cbn [forallb] in Hs. apply andb_true_iff in Hs. tauto.
+Qed.
+
+Lemma next_tok_nil : next_tok [] = None.
+Proof. reflexivity. Qed.
+
+Lemma create_loop_nil fuel h : create_loop fuel h [] = Ok h.
+Proof. destruct fuel; reflexivity. Qed.
+
+(* ====================================================================== *)
+(* 3. strtoul, _parse_single_range, _parse_range_list                      *)
+(* ====================================================================== *)
+
+Lemma digit_not_space d : is_digit d = true -> is_space d = false.
+Proof. unfold is_digit, is_space. lia. Qed.
+
+Lemma strtoul_digits ds :
+  ds <> [] -> forallb is_digit ds = true ->
+  strtoul ds = Some (if ULONG <=? value ds then ULONG - 1 else value ds, [], ULONG <=? value ds).
+Proof.
+  intros Hne Hd. unfold strtoul.
+  destruct ds as [|d ds']; [congruence|].
+  assert (Hdd : is_digit d = true) by (cbn [forallb] in Hd; apply andb_true_iff in Hd; tauto).
+  cbn [drop_while]. rewrite (digit_not_space d Hdd).
+  rewrite match_N_43_45.
+  assert (E1 : (d =? 43) = false) by (unfold is_digit in Hdd; lia).
+  assert (E2 : (d =? 45) = false) by (unfold is_digit in Hdd; lia).
+  rewrite E1, E2.
+  rewrite take_while_all, drop_while_all by auto.
+  cbn [andb]. reflexivity.
+Qed.
+Definition rng_of (r : rtxt) : rng := mkrng (t_lo r) (rt_hi r) (t_w r).
+
+Lemma fmt_no_dash w n : ~ In 45 (fmt w n).
+Proof. eapply forallb_not_In; [apply fmt_all_digit|reflexivity]. Qed.
+Lemma fmt_no_comma w n : ~ In 44 (fmt w n).
+Proof. eapply forallb_not_In; [apply fmt_all_digit|reflexivity]. Qed.
+
+Lemma strtoul_fmt w n : n < ULONG -> strtoul (fmt w n) = Some (n, [], false).
+Proof. intros H. rewrite strtoul_digits by (apply fmt_nonempty || apply fmt_all_digit).
+  rewrite value_fmt. assert ((ULONG <=? n) = false) as -> by lia. reflexivity. Qed.
+
+Lemma NUM_LIMIT_ULONG : NUM_LIMIT < ULONG - 1. Proof. reflexivity. Qed.
+
+Lemma parse_single_range_rt r : rt_wf r -> parse_single_range (rt_text r) = Ok (rng_of r).
+Proof.
+  intros (Hw & Hle & Hrange & Hlim & Hhi).
+  pose proof NUM_LIMIT_ULONG as HL.
+  unfold parse_single_range, rt_text, rng_of, rt_hi in *.
+  destruct (t_hi r) as [[h wh]|].
+  - rewrite split_at_app by apply fmt_no_dash.
+    destruct (fmt wh h) as [|d ds] eqn:E; [exfalso; eapply fmt_nonempty; eauto|].
+    assert (Hd : is_digit d = true).
+    { pose proof (fmt_all_digit wh h) as Hd. rewrite E in Hd. cbn [forallb] in Hd. apply andb_true_iff in Hd; tauto. }
+    cbv beta iota.
+    rewrite match_N_45.
+    assert (E45 : (d =? 45) = false) by (unfold is_digit in Hd; lia). rewrite E45.
+    rewrite <- E. rewrite !strtoul_fmt by lia.
+    cbv beta iota.
+    assert ((h <? t_lo r) = false) as -> by lia.
+    assert ((MAX_RANGE <=? h - t_lo r) = false) as -> by lia.
+    assert ((h =? ULONG - 1) = false) as -> by lia. rewrite fmt_length. f_equal. f_equal. lia.
+  - rewrite app_nil_r. rewrite split_at_none by apply fmt_no_dash.
+    cbv beta iota. rewrite strtoul_fmt by lia. cbv beta iota.
+    assert ((t_lo r <? t_lo r) = false) as -> by lia.
+    assert ((MAX_RANGE <=? t_lo r - t_lo r) = false) as -> by lia.
+    assert ((t_lo r =? ULONG - 1) = false) as -> by lia. rewrite fmt_length. f_equal. f_equal. lia.
+Qed.
+
+Lemma parse_ranges_rt rs : forall room,
+  Forall rt_wf rs -> (length rs <= room)%nat ->
+  parse_ranges (map rt_text rs) room = Ok (map rng_of rs).
+Proof.
+  induction rs as [|r rs IH]; intros room Hwf Hlen; [reflexivity|].
+  inversion Hwf as [|? ? Hr Hrs]; subst.
+  destruct room as [|room]; [cbn [length] in Hlen; lia|].
+  cbn [map parse_ranges]. rewrite parse_single_range_rt by auto. cbn [bind].
+  rewrite IH by (auto; cbn [length] in Hlen; lia). reflexivity.
+Qed.
+
+Lemma rt_text_no_comma r : ~ In 44 (rt_text r).
+Proof. unfold rt_text. intros H. apply in_app_or in H as [H|H].
+  - revert H. apply fmt_no_comma.
+  - destruct (t_hi r) as [[h wh]|]; [|contradiction]. destruct H as [H|H]; [discriminate|].
+    revert H. apply fmt_no_comma. Qed.
+
+Lemma parse_range_list_rs rs : rs_wf rs -> parse_range_list (rs_text rs) = Ok (map rng_of rs).
+Proof.
+  intros (Hne & Hlen & Hwf). unfold parse_range_list, rs_text.
+  rewrite split_all_join.
+  - apply parse_ranges_rt; auto.
+  - destruct rs; [congruence|discriminate].
+  - intros a Ha. apply in_map_iff in Ha as (r & <- & _). apply rt_text_no_comma.
+Qed.
+
+(* ====================================================================== *)
+(* 4. Lists of ranges: invariant and "extends by these names"              *)
+(* ====================================================================== *)
+
+Definition hr_ok2 (r : hr) : Prop := hr_ok r /\ hi r < NUM_LIMIT.
+Definition hl_ok (h : hl) : Prop := Forall hr_ok2 (ranges h).
+Definition extends (h h' : hl) (names : list bytes) : Prop :=
+  hl_ok h' /\ expand (ranges h') = expand (ranges h) ++ names.
+
+Lemma hr_ok2_ok l : Forall hr_ok2 l -> Forall hr_ok l.
+Proof. apply Forall_impl. intros r [H _]; exact H. Qed.
+
+Lemma push_range_hi_bound B l r :
+  Forall (fun x => hi x < B) l -> hi r < B -> Forall (fun x => hi x < B) (push_range l r).
+Proof.
+  intros Hl Hr. induction l as [|t l IH]; [repeat constructor; auto|].
+  inversion Hl as [|? ? Ht Hl']; subst. destruct l as [|u l'].
+  - cbn [push_range].
+    destruct (prefix_cmp0 t r && (hi t =? usub (lo r) 1)); [|repeat constructor; auto].
+    destruct (width_equiv (lo t) (wid t) (lo r) (wid r)) as [[wt wr]|]; repeat constructor; auto.
+  - change (push_range (t :: u :: l') r) with (t :: push_range (u :: l') r).
+    constructor; auto.
+Qed.
+
+Lemma push_range_ok2 l r : Forall hr_ok2 l -> hr_ok2 r -> Forall hr_ok2 (push_range l r).
+Proof.
+  intros Hl [Hr1 Hr2].
+  assert (H1 : Forall hr_ok (push_range l r)) by (apply push_range_ok; auto using hr_ok2_ok).
+  assert (H2 : Forall (fun x => hi x < NUM_LIMIT) (push_range l r)).
+  { apply push_range_hi_bound; auto. revert Hl. apply Forall_impl. intros x [_ H]; exact H. }
+  rewrite Forall_forall in *. intros x Hx. split; auto.
+Qed.
+
+Lemma hl_empty_ok : hl_ok hl_empty.
+Proof. constructor. Qed.
+
+Lemma extends_refl h : hl_ok h -> extends h h [].
+Proof. intros H. split; auto. rewrite app_nil_r. reflexivity. Qed.
+
+Lemma extends_trans h h' h'' a b : extends h h' a -> extends h' h'' b -> extends h h'' (a ++ b).
+Proof. intros [_ E1] [H2 E2]. split; auto. rewrite E2, E1, app_assoc. reflexivity. Qed.
+
+Lemma extends_ok h h' a : extends h h' a -> hl_ok h'.
+Proof. intros [H _]; exact H. Qed.
+
+Lemma hl_push_range_ext h r : hl_ok h -> hr_ok2 r -> extends h (hl_push_range h r) (range_hosts r).
+Proof.
+  intros Hh Hr. split.
+  - unfold hl_ok, hl_push_range. cbn [ranges]. apply push_range_ok2; auto.
+  - unfold hl_push_range. cbn [ranges]. apply push_range_expand; [apply hr_ok2_ok; auto|apply Hr].
+Qed.
+
+(* folding pushes: each step extends by g x *)
+Lemma fold_extends {A} (step : hl -> A -> hl) (g : A -> list bytes) (P : A -> Prop) :
+  (forall h x, hl_ok h -> P x -> extends h (step h x) (g x)) ->
+  forall xs h, hl_ok h -> Forall P xs -> extends h (fold_left step xs h) (flat_map g xs).
+Proof.
+  intros Hstep xs. induction xs as [|x xs IH]; intros h Hh HP; cbn [fold_left flat_map].
+  - apply extends_refl; auto.
+  - inversion HP as [|? ? Hx Hxs]; subst.
+    eapply extends_trans; [apply Hstep; auto|]. apply IH; auto.
+    eapply extends_ok. apply Hstep; auto.
+Qed.
+
+Lemma single_ok2 name : hr_ok2 (mkhr name 0 0 0 true).
+Proof. split; [split; reflexivity|reflexivity]. Qed.
+
+Lemma range_hosts_single name : range_hosts (mkhr name 0 0 0 true) = [name].
+Proof. reflexivity. Qed.
+
+Definition rng_ok (r : rng) : Prop := r_lo r <= r_hi r /\ r_hi r < NUM_LIMIT.
+Definition rng_nums (r : rng) : list N := count_up (N.to_nat (r_hi r + 1 - r_lo r)) (r_lo r).
+
+Lemma push_range_list_ext h p rs :
+  hl_ok h -> Forall rng_ok rs ->
+  extends h (push_range_list h p rs)
+            (flat_map (fun r => map (fun n => p ++ fmt (r_w r) n) (rng_nums r)) rs).
+Proof.
+  intros Hh Hrs. unfold push_range_list.
+  apply (fold_extends (fun h r => hl_push_range h (mkhr p (r_lo r) (r_hi r) (r_w r) false))
+                      (fun r => map (fun n => p ++ fmt (r_w r) n) (rng_nums r)) rng_ok); auto.
+  intros h0 r Hh0 [Hr1 Hr2].
+  apply (hl_push_range_ext h0 (mkhr p (r_lo r) (r_hi r) (r_w r) false)); auto.
+  pose proof NUM_LIMIT_ULONG. split; [|exact Hr2]. unfold hr_ok. cbn [single lo hi]. lia.
+Qed.
+
+Lemma push_range_list_with_suffix_ext h p sfx rs :
+  hl_ok h ->
+  extends h (push_range_list_with_suffix h p sfx rs)
+            (flat_map (fun r => map (fun n => suffix_host p sfx (r_w r) n) (rng_nums r)) rs).
+Proof.
+  intros Hh. unfold push_range_list_with_suffix.
+  apply (fold_extends
+           (fun h r => fold_left (fun h n => hl_push_range h (mkhr (suffix_host p sfx (r_w r) n) 0 0 0 true))
+                                 (count_up (N.to_nat (r_hi r + 1 - r_lo r)) (r_lo r)) h)
+           (fun r => map (fun n => suffix_host p sfx (r_w r) n) (rng_nums r)) (fun _ => True)); auto.
+  - intros h0 r Hh0 _.
+    replace (map (fun n => suffix_host p sfx (r_w r) n) (rng_nums r))
+      with (flat_map (fun n => [suffix_host p sfx (r_w r) n]) (rng_nums r)).
+    2:{ induction (rng_nums r) as [|x xs IHx]; cbn [flat_map map app]; congruence. }
+    apply (fold_extends (fun h n => hl_push_range h (mkhr (suffix_host p sfx (r_w r) n) 0 0 0 true))
+                        (fun n => [suffix_host p sfx (r_w r) n]) (fun _ => True)); auto.
+    + intros h1 n Hh1 _. rewrite <- range_hosts_single. apply hl_push_range_ext; auto. apply single_ok2.
+    + apply Forall_forall; auto.
+  - apply Forall_forall; auto.
+Qed.
+
+(* ====================================================================== *)
+(* 5. hostname_create / push_host: any name is pushed as itself            *)
+(* ====================================================================== *)
+
+Lemma split_suffix_spec name :
+  let '(pre, ds) := split_suffix name in name = pre ++ ds /\ forallb is_digit ds = true.
+Proof.
+  unfold split_suffix. split.
+  - rewrite <- rev_app_distr, take_drop_while, rev_involutive. reflexivity.
+  - apply forallb_rev. apply take_while_forallb.
+Qed.
+
+Lemma MAX_HOST_SUFFIX_lt : MAX_HOST_SUFFIX < NUM_LIMIT. Proof. reflexivity. Qed.
+
+Lemma push_host_ext h name : hl_ok h -> extends h (push_host h name) [name].
+Proof.
+  intros Hh. unfold push_host, hostname_create.
+  pose proof (split_suffix_spec name) as Hs. destruct (split_suffix name) as [pre ds].
+  destruct Hs as [Hn Hd]. cbn [fst]. unfold hostname_with_suffix.
+  subst name. rewrite skipn_app_length.
+  destruct ds as [|d ds'] eqn:Eds.
+  - cbn [hn_sfx]. rewrite <- range_hosts_single. apply hl_push_range_ext; auto. apply single_ok2.
+  - rewrite <- Eds in *. assert (Hne : ds <> []) by (rewrite Eds; discriminate).
+    rewrite strtoul_digits by auto.
+    destruct (ULONG <=? value ds) eqn:Eov.
+    + (* saturated: certainly larger than MAX_HOST_SUFFIX *)
+      assert ((ULONG - 1 <=? MAX_HOST_SUFFIX) = false) as ->.
+      { pose proof MAX_HOST_SUFFIX_lt. pose proof NUM_LIMIT_ULONG. lia. }
+      cbn [hn_sfx]. rewrite <- range_hosts_single. apply hl_push_range_ext; auto. apply single_ok2.
+    + destruct (value ds <=? MAX_HOST_SUFFIX) eqn:Emax.
+      * cbn [hn_sfx hn_pfx hn_num]. rewrite firstn_app_length.
+        assert (E : range_hosts (mkhr pre (value ds) (value ds) (length ds) false) = [pre ++ ds]).
+        { unfold range_hosts. cbn [single pfx lo hi wid].
+          replace (N.to_nat (value ds + 1 - value ds)) with 1%nat by lia.
+          cbn [count_up map]. rewrite fmt_value by auto. reflexivity. }
+        assert (Hok : hr_ok2 (mkhr pre (value ds) (value ds) (length ds) false)).
+        { pose proof MAX_HOST_SUFFIX_lt. pose proof NUM_LIMIT_ULONG.
+          split; [unfold hr_ok|]; cbn [single lo hi]; lia. }
+        pose proof (hl_push_range_ext h _ Hh Hok) as X. rewrite E in X. exact X.
+      * cbn [hn_sfx]. rewrite <- range_hosts_single. apply hl_push_range_ext; auto. apply single_ok2.
+Qed.
+
+(* ====================================================================== *)
+(* 6. _hostlist_create_bracketed on one token                              *)
+(* ====================================================================== *)
+
+Lemma plain_no_lbr t : plain_text t = true -> ~ In 91 t.
+Proof. intros H. eapply forallb_not_In; [exact H|reflexivity]. Qed.
+Lemma plain_no_rbr t : plain_text t = true -> ~ In 93 t.
+Proof. intros H. eapply forallb_not_In; [exact H|reflexivity]. Qed.
+Lemma nobr_no_rbr t : forallb nobr t = true -> ~ In 93 t.
+Proof. intros H. eapply forallb_not_In; [exact H|reflexivity]. Qed.
+
+Lemma create_tok_plain h name :
+  plain_text name = true -> (length name < N.to_nat CUR_TOK_SIZE - 1)%nat ->
+  create_tok h name = Ok (push_host h name).
+Proof.
+  intros Hp Hl. unfold create_tok. rewrite split_at_none by (apply plain_no_lbr; auto).
+  destruct (mem 93 name) eqn:E.
+  - apply mem_In in E. exfalso. revert E. apply plain_no_rbr; auto.
+  - rewrite firstn_all2 by lia. reflexivity.
+Qed.
+
+Lemma create_tok_br h p rs q :
+  plain_text p = true -> rs_wf rs ->
+  create_tok h (p ++ 91 :: rs_text rs ++ 93 :: q)
+  = Ok (match q with
+        | [] => push_range_list h p (map rng_of rs)
+        | _ => push_range_list_with_suffix h p q (map rng_of rs)
+        end).
+Proof.
+  intros Hp Hrs. unfold create_tok.
+  rewrite split_at_app by (apply plain_no_lbr; auto).
+  rewrite split_at_app by (apply nobr_no_rbr, rs_text_nobr).
+  rewrite parse_range_list_rs by auto. cbn [bind]. destruct q; reflexivity.
+Qed.
+
+Lemma rng_of_ok rs : Forall rt_wf rs -> Forall rng_ok (map rng_of rs).
+Proof. intros H. apply Forall_map. revert H. apply Forall_impl.
+  intros r (H1 & H2 & H3 & H4 & H5). split; cbn [rng_of r_lo r_hi]; auto. Qed.
+
+Lemma rng_nums_of r : map (fmt (r_w (rng_of r))) (rng_nums (rng_of r)) = rt_nums r.
+Proof. unfold rt_nums, rng_nums, rng_of. cbn [r_lo r_hi r_w]. reflexivity. Qed.
+
+(* the names a bracketed token stands for, for any text q after the bracket *)
+Lemma create_tok_br_ext h p rs q :
+  hl_ok h -> plain_text p = true -> rs_wf rs ->
+  Forall (fun n => (length (p ++ n ++ q) < N.to_nat SUFFIX_HOST_SIZE - 1)%nat) (rs_nums rs) ->
+  exists h', create_tok h (p ++ 91 :: rs_text rs ++ 93 :: q) = Ok h' /\
+             extends h h' (map (fun n => p ++ n ++ q) (rs_nums rs)).
+Proof.
+  intros Hh Hp Hrs Hlen. rewrite create_tok_br by auto.
+  eexists; split; [reflexivity|].
+  destruct Hrs as (_ & _ & Hwf).
+  unfold rs_nums. rewrite map_flat_map.
+  destruct q as [|c q'].
+  - replace (flat_map (fun x => map (fun n => p ++ n ++ []) (rt_nums x)) rs)
+      with (flat_map (fun r => map (fun n => p ++ fmt (r_w r) n) (rng_nums r)) (map rng_of rs)).
+    + apply push_range_list_ext; auto. apply rng_of_ok; auto.
+    + rewrite flat_map_map'. apply flat_map_ext'. intros r _.
+      rewrite <- rng_nums_of, map_map. apply map_ext. intros n. rewrite app_nil_r. reflexivity.
+  - set (q := c :: q') in *.
+    replace (flat_map (fun x => map (fun n => p ++ n ++ q) (rt_nums x)) rs)
+      with (flat_map (fun r => map (fun n => suffix_host p q (r_w r) n) (rng_nums r)) (map rng_of rs)).
+    + apply push_range_list_with_suffix_ext; auto.
+    + rewrite flat_map_map'. apply flat_map_ext'. intros r Hr.
+      rewrite <- rng_nums_of, map_map. apply map_ext_in. intros n Hn.
+      unfold suffix_host. apply firstn_all2.
+      unfold rs_nums in Hlen. rewrite Forall_forall in Hlen.
+      assert (Hin : In (fmt (r_w (rng_of r)) n) (flat_map rt_nums rs)).
+      { apply in_flat_map. exists r. split; auto. rewrite <- rng_nums_of. apply in_map; auto. }
+      specialize (Hlen _ Hin). lia.
+Qed.
+
+(* ====================================================================== *)
+(* 7. hostlist_shift enumerates the expansion                              *)
+(* ====================================================================== *)
+
+Lemma NUM_LIMIT_pow : NUM_LIMIT = 10 ^ N.of_nat 15. Proof. reflexivity. Qed.
+
+Lemma shift_range_hosts r : hr_ok2 r -> shift_range r = range_hosts r.
+Proof.
+  intros [Hok Hlim]. unfold shift_range, range_hosts, hr_ok in *.
+  destruct (single r); [reflexivity|]. destruct Hok as [H1 H2].
+  assert ((hi r =? ULONG - 1) = false) as -> by lia.
+  apply map_ext_in. intros n Hn. apply count_up_In in Hn.
+  unfold shift_name. apply firstn_all2. rewrite app_length, fmt_length.
+  assert (Hnd : (ndigits n <= 15)%nat).
+  { apply ndigits_le_pow; [|lia]. rewrite <- NUM_LIMIT_pow. lia. }
+  lia.
+Qed.
+
+Lemma shift_all_expand l : Forall hr_ok2 l -> shift_all l = expand l.
+Proof. intros H. unfold shift_all, expand. apply flat_map_ext'. intros r Hr.
+  apply shift_range_hosts. rewrite Forall_forall in H; auto. Qed.
+
+(* ====================================================================== *)
+(* 8. Second pass: pushing the names of the first pass again               *)
+(* ====================================================================== *)
+
+(* create on a string that is exactly one token *)
+Lemma create_one_tok t : tok_ok t -> create t = bind (create_tok hl_empty t) (fun h => Ok h).
+Proof.
+  intros Ht. unfold create. cbn [create_loop].
+  replace (next_tok t) with (Some (t, @nil N)).
+  2:{ symmetry. rewrite <- (app_nil_r t) at 1. change (@nil N) with (@nil N ++ @nil N) at 1.
+      apply next_tok_tok; auto. exact I. }
+  destruct (create_tok hl_empty t); cbn [bind]; auto. apply create_loop_nil.
+Qed.
+
+(* pushing name n appends the names out *)
+Definition name_ok (n : bytes) (out : list bytes) : Prop :=
+  exists h2, create n = Ok h2 /\ hl_ok h2 /\ expand (ranges h2) = out.
+
+Lemma push_list_ext h l : hl_ok h -> Forall hr_ok2 l -> extends h (fold_left hl_push_range l h) (expand l).
+Proof. intros Hh Hl. unfold expand.
+  apply (fold_extends hl_push_range range_hosts hr_ok2); auto.
+  intros; apply hl_push_range_ext; auto. Qed.
+
+Lemma push_ext h n out : hl_ok h -> name_ok n out -> extends h (fst (push h n)) out.
+Proof. intros Hh (h2 & Hc & Hok & He). unfold push. rewrite Hc. cbn [fst]. unfold push_list.
+  rewrite <- He. apply push_list_ext; auto. Qed.
+
+Lemma reexpand_ext names outs : Forall2 name_ok names outs ->
+  forall h, hl_ok h -> extends h (fold_left (fun h n => fst (push h n)) names h) (concat outs).
+Proof.
+  induction 1 as [|n out names outs Hn Hrest IH]; intros h Hh; cbn [fold_left concat].
+  - apply extends_refl; auto.
+  - eapply extends_trans; [apply push_ext; eauto|]. apply IH. eapply extends_ok. apply push_ext; eauto.
+Qed.
+
+Lemma name_ok_plain n :
+  n <> [] -> plain_text n = true -> (length n < N.to_nat CUR_TOK_SIZE - 1)%nat -> name_ok n [n].
+Proof.
+  intros Hne Hp Hl. unfold name_ok.
+  rewrite create_one_tok by (apply tok_ok_plain; auto).
+  rewrite create_tok_plain by auto. cbn [bind].
+  destruct (push_host_ext hl_empty n hl_empty_ok) as [H1 H2].
+  eexists; split; [reflexivity|]. split; auto.
+Qed.
+
+Lemma name_ok_br p rs q :
+  plain_text p = true -> rs_wf rs -> plain_text q = true ->
+  Forall (fun n => (length (p ++ n ++ q) < N.to_nat SUFFIX_HOST_SIZE - 1)%nat) (rs_nums rs) ->
+  name_ok (p ++ 91 :: rs_text rs ++ 93 :: q) (map (fun n => p ++ n ++ q) (rs_nums rs)).
+Proof.
+  intros Hp Hrs Hq Hlen. unfold name_ok.
+  rewrite create_one_tok by (apply tok_ok_br; auto using rs_text_nobr).
+  destruct (create_tok_br_ext hl_empty p rs q hl_empty_ok Hp Hrs Hlen) as (h' & Hc & Hok & He).
+  rewrite Hc. cbn [bind]. eexists; split; [reflexivity|]. split; auto.
+Qed.
+
+(* ====================================================================== *)
+(* 9. Words                                                                *)
+(* ====================================================================== *)
+
+(* names after the first pass *)
+Definition pass1 (w : word) : list bytes :=
+  match w with
+  | WPlain name => [name]
+  | WBr p rs sfx => map (fun n => p ++ n ++ sfx) (rs_nums rs)
+  | WBr2 p rs mid rs2 sfx => map (fun n => first_pass_name p n mid rs2 sfx) (rs_nums rs)
+  end.
+
+Lemma rs_nums_In n rs : In n (rs_nums rs) -> n <> [] /\ forallb is_digit n = true.
+Proof.
+  unfold rs_nums, rt_nums. intros H. apply in_flat_map in H as (r & _ & H).
+  apply in_map_iff in H as (x & <- & _). split; [apply fmt_nonempty|apply fmt_all_digit].
+Qed.
+
+Lemma render_word_tok w : word_wf w -> tok_ok (render_word w).
+Proof.
+  destruct w as [name|p rs sfx|p rs mid rs2 sfx]; cbn [word_wf render_word].
+  - intros (Hne & Hp & _). apply tok_ok_plain; auto.
+  - intros (Hp & Hs & _). apply tok_ok_br; auto using rs_text_nobr.
+  - intros (Hp & Hm & Hs & _). apply tok_ok_br2; auto using rs_text_nobr.
+Qed.
+
+Lemma word_pass1 h w : hl_ok h -> word_wf w ->
+  exists h', create_tok h (render_word w) = Ok h' /\ extends h h' (pass1 w).
+Proof.
+  intros Hh. destruct w as [name|p rs sfx|p rs mid rs2 sfx]; cbn [word_wf render_word pass1].
+  - intros (Hne & Hp & Hl). rewrite create_tok_plain by auto.
+    eexists; split; [reflexivity|]. apply push_host_ext; auto.
+  - intros (Hp & Hs & Hrs & Hlen). apply create_tok_br_ext; auto.
+    cbn [denote_word] in Hlen. rewrite Forall_map in Hlen. revert Hlen. apply Forall_impl.
+    intros n [H _]; exact H.
+  - intros (Hp & Hm & Hs & Hrs & Hrs2 & Hlen1 & _).
+    apply (create_tok_br_ext h p rs (mid ++ 91 :: rs_text rs2 ++ 93 :: sfx)); auto.
+Qed.
+
+Lemma Forall2_map_in {A B C} (R : B -> C -> Prop) (f : A -> B) (g : A -> C) l :
+  (forall x, In x l -> R (f x) (g x)) -> Forall2 R (map f l) (map g l).
+Proof. induction l as [|a l IH]; intros H; cbn [map]; constructor.
+  - apply H; left; auto. - apply IH. intros; apply H; right; auto. Qed.
+
+Lemma concat_singletons {A} (l : list A) : concat (map (fun x => [x]) l) = l.
+Proof. induction l; cbn [map concat app]; congruence. Qed.
+
+Lemma word_pass2 w : word_wf w ->
+  exists outs, Forall2 name_ok (pass1 w) outs /\ concat outs = denote_word w.
+Proof.
+  destruct w as [name|p rs sfx|p rs mid rs2 sfx]; cbn [word_wf pass1 denote_word].
+  - intros (Hne & Hp & Hl). exists [[name]]. split; [|reflexivity].
+    constructor; [|constructor]. apply name_ok_plain; auto.
+  - intros (Hp & Hs & Hrs & Hlen).
+    exists (map (fun x => [x]) (map (fun n => p ++ n ++ sfx) (rs_nums rs))).
+    split; [|apply concat_singletons].
+    rewrite map_map. apply Forall2_map_in. intros n Hn.
+    rewrite Forall_map, Forall_forall in Hlen. destruct (Hlen n Hn) as [_ Hl].
+    apply rs_nums_In in Hn as [Hne Hd].
+    apply name_ok_plain; auto.
+    + destruct p; [destruct n; [congruence|discriminate]|discriminate].
+    + rewrite !plain_text_app, Hp, Hs, (digits_plain_text n Hd). reflexivity.
+  - intros (Hp & Hm & Hs & Hrs & Hrs2 & Hlen1 & Hlen2).
+    exists (map (fun n => map (fun m => p ++ n ++ mid ++ m ++ sfx) (rs_nums rs2)) (rs_nums rs)).
+    split; [|symmetry; apply flat_map_concat_map].
+    apply Forall2_map_in. intros n Hn.
+    unfold first_pass_name.
+    replace (p ++ n ++ mid ++ 91 :: rs_text rs2 ++ 93 :: sfx)
+      with ((p ++ n ++ mid) ++ 91 :: rs_text rs2 ++ 93 :: sfx) by (rewrite <- !app_assoc; reflexivity).
+    replace (map (fun m => p ++ n ++ mid ++ m ++ sfx) (rs_nums rs2))
+      with (map (fun m => (p ++ n ++ mid) ++ m ++ sfx) (rs_nums rs2))
+      by (apply map_ext; intros m; rewrite <- !app_assoc; reflexivity).
+    pose proof (rs_nums_In _ _ Hn) as [Hne Hd].
+    apply name_ok_br; auto.
+    + rewrite !plain_text_app, Hp, Hm, (digits_plain_text n Hd). reflexivity.
+    + rewrite Forall_forall in Hlen2. apply Forall_forall. intros m Hm2.
+      rewrite <- !app_assoc. apply Hlen2. apply in_flat_map. exists n. split; auto.
+      apply in_map_iff. exists m. split; auto.
+Qed.
+
+(* ====================================================================== *)
+(* 10. Expressions                                                         *)
+(* ====================================================================== *)
+
+Lemma render_cons w s e : render ((w, s) :: e) = render_word w ++ s ++ render e.
+Proof. reflexivity. Qed.
+
+Lemma expr_wf_cons w s e :
+  expr_wf ((w, s) :: e) ->
+  word_wf w /\ forallb is_sep s = true /\ (s <> [] \/ e = []) /\ expr_wf e.
+Proof.
+  destruct e as [|ws e'].
+  - cbn [expr_wf]. intros [Hw Hs]. repeat split; auto.
+  - change (expr_wf ((w, s) :: ws :: e')) with (word_wf w /\ sep_wf s /\ expr_wf (ws :: e')).
+    intros (Hw & [Hne Hs] & He). repeat split; auto.
+Qed.
+
+Lemma render_clean e : expr_wf e -> clean (render e).
+Proof.
+  destruct e as [|[w s] e']; [intros; exact I|]. intros H. apply expr_wf_cons in H as (Hw & _).
+  rewrite render_cons. apply render_word_tok in Hw as [_ Hhd].
+  destruct (render_word w); [contradiction|]. exact Hhd.
+Qed.
+
+Lemma render_length e : expr_wf e -> (length e <= length (render e))%nat.
+Proof.
+  induction e as [|[w s] e' IH]; intros H; [cbn; lia|].
+  apply expr_wf_cons in H as (Hw & _ & _ & He). rewrite render_cons, !app_length. cbn [length].
+  specialize (IH He). apply render_word_tok in Hw as [_ Hhd].
+  destruct (render_word w); [contradiction|]. cbn [length]. lia.
+Qed.
+
+Definition pass1s (e : expr) : list bytes := flat_map (fun ws => pass1 (fst ws)) e.
+
+Lemma create_loop_render e : forall fuel h,
+  expr_wf e -> hl_ok h -> (length e <= fuel)%nat ->
+  exists h', create_loop fuel h (render e) = Ok h' /\ extends h h' (pass1s e).
+Proof.
+  induction e as [|[w s] e' IH]; intros fuel h He Hh Hf.
+  - exists h. split; [apply create_loop_nil|apply extends_refl; auto].
+  - apply expr_wf_cons in He as (Hw & Hs & Hse & He').
+    destruct fuel as [|fuel]; [cbn [length] in Hf; lia|].
+    cbn [create_loop]. rewrite render_cons.
+    rewrite next_tok_tok; auto using render_word_tok, render_clean.
+    2:{ destruct Hse as [Hse|Hse]; [left; auto|right; subst; reflexivity]. }
+    destruct (word_pass1 h w Hh Hw) as (h1 & Hc & Hx). rewrite Hc. cbn [bind].
+    destruct (IH fuel h1 He' (extends_ok _ _ _ Hx)) as (h2 & Hc2 & Hx2); [cbn [length] in Hf; lia|].
+    exists h2. split; auto. unfold pass1s. cbn [flat_map fst]. eapply extends_trans; eauto.
+Qed.
+
+Lemma expr_pass2 e : expr_wf e ->
+  exists outs, Forall2 name_ok (pass1s e) outs /\ concat outs = denote e.
+Proof.
+  induction e as [|[w s] e' IH]; intros He.
+  - exists []. split; [constructor|reflexivity].
+  - apply expr_wf_cons in He as (Hw & _ & _ & He').
+    destruct (word_pass2 w Hw) as (o1 & H1 & E1). destruct (IH He') as (o2 & H2 & E2).
+    exists (o1 ++ o2). unfold pass1s, denote. cbn [flat_map fst]. split.
+    + apply Forall2_app; auto.
+    + rewrite concat_app, E1. f_equal. exact E2.
+Qed.
+
+(* ====================================================================== *)
+(* 11. C01                                                                 *)
+(* ====================================================================== *)
+
+Theorem C01_expansion : forall e : expr, expr_wf e -> targets (render e) = Ok (denote e).
+Proof.
+  intros e He. unfold targets, create.
+  destruct (create_loop_render e (S (length (render e))) hl_empty He hl_empty_ok) as (h1 & Hc & Hok1 & Hx1).
+  { pose proof (render_length e He). lia. }
+  rewrite Hc. cbn [bind]. f_equal.
+  change (expand (ranges hl_empty)) with (@nil bytes) in Hx1. cbn [app] in Hx1.
+  rewrite shift_all_expand by exact Hok1. rewrite Hx1.
+  destruct (expr_pass2 e He) as (outs & Hn & Eo).
+  destruct (reexpand_ext _ _ Hn hl_empty hl_empty_ok) as [Hok2 Hx2].
+  change (expand (ranges hl_empty)) with (@nil bytes) in Hx2. cbn [app] in Hx2.
+  unfold reexpand. rewrite iter_all_expand by (apply hr_ok2_ok; exact Hok2).
+  rewrite Hx2. exact Eo.
+Qed.
+
+Print Assumptions C01_expansion.
+
+(* the hypothesis is satisfiable by an expression using every kind of word:
+   "foo, foo[1-3,08-11] foo[1-3]-[005]" *)
+Example C01_expansion_nonvacuous :
+  let foo := [102;111;111] in
+  let r1 := mkrt 1 1 (Some (3, 1%nat)) in let r2 := mkrt 8 2 (Some (11, 2%nat)) in let r3 := mkrt 5 3 None in
+  let e := [(WPlain foo, [44;32]); (WBr foo [r1;r2] [], [32]); (WBr2 foo [r1] [45] [r3] [], [])] in
+  expr_wf e /\ length (denote e) = 11%nat.
+Proof.
+  cbv zeta. split; [|reflexivity].
+  Ltac wf_dec :=
+    repeat match goal with
+    | |- _ /\ _ => split
+    | |- Forall _ _ => cbv [denote_word rs_nums rt_nums flat_map map]; constructor
+    | |- sep_wf _ => unfold sep_wf
+    | |- rs_wf _ => unfold rs_wf
+    | |- rt_wf _ => unfold rt_wf; cbn [t_lo t_w t_hi rt_hi]
+    | |- True => exact I
+    | |- _ <> [] => discriminate
+    | |- @eq bool _ _ => vm_compute; reflexivity
+    | |- (_ < _)%nat => apply Nat.ltb_lt; vm_compute; reflexivity
+    | |- (_ <= _)%nat => apply Nat.leb_le; vm_compute; reflexivity
+    | |- (_ < _)%N => apply N.ltb_lt; vm_compute; reflexivity
+    | |- (_ <= _)%N => apply N.leb_le; vm_compute; reflexivity
+    end.
+  cbn [expr_wf word_wf]. wf_dec.
+Qed.
